@@ -919,6 +919,34 @@ fn publish_one(w: &mut World, name: &str, content: u8) -> Result<(), String> {
 /// The follow-up every cut must allow: another publication and a repository
 /// write succeed and leave everything consistent.
 fn next_write_ok(w: &mut World, tag: &str, wop: WriteOp) -> Vec<(String, String)> {
+    // first on a copy: no retry of the interrupted write at all - the next
+    // thing that happens is another publication and its repository write
+    // (after an interrupted session reset the reset itself is already
+    // recorded, so this write is the first of the new session)
+    let tag2 = tag.to_string();
+    let r = crate::checks::c04::what_if(w, move |w2| {
+        let mut v: Vec<(String, String)> = Vec::new();
+        for name in [format!("noretry-{tag2}.txt"), format!("noretry2-{tag2}.txt")] {
+            if let Err(e) = publish_one(w2, &name, 3) {
+                v.push(("later-publish-failed".into(), format!("without a retry of the interrupted write: {}", e.replace('\n', " "))));
+                return v;
+            }
+            if let Err(e) = w2.krill.repo_manager().update_rrdp_if_needed() {
+                v.push(("later-write-failed".into(), format!("the next repository write after the cut (no retry of the interrupted one) fails: {}", e.to_string().replace('\n', " "))));
+                return v;
+            }
+            v.extend(files_consistent(w2, true).into_iter().map(|(k, d)| (k, format!("after the cut and a new publication + write, without a retry of the interrupted write: {d}"))));
+            if !v.is_empty() {
+                return v;
+            }
+        }
+        v
+    });
+    match r {
+        Ok(x) if !x.is_empty() => return x,
+        Ok(_) => {}
+        Err(e) => return vec![("machinery".into(), e)],
+    }
     let mut v = Vec::new();
     // first of all the plain retry, with nothing new to publish: the task is
     // rescheduled / the operator repeats the reset. It must succeed and
@@ -1187,6 +1215,6 @@ pub fn run_c11_faults(tier: &Tier, out: &mut Outcome) -> serde_json::Value {
         "mutation_kinds_cut": cut_kinds,
         "per_scenario": per_scenario,
         "samples": samples,
-        "rule": "for each scenario the fault-free write is run once counting every KV / file-system mutation (fault points H3); then for every index n and both modes (process death before mutation n; single failing mutation n) the write is re-run on a fresh copy, followed by a fresh instance (crash) or the same instance (fail) doing two more publications+writes; every such execution is a distinct non-trivial case",
+        "rule": "for each scenario the fault-free write is run once counting every KV / file-system mutation (fault points H3); then for every index n and both modes (process death before mutation n; single failing mutation n) the write is re-run on a fresh copy, followed by a fresh instance (crash) or the same instance (fail) doing, on a copy, two new publications + writes without any retry, and then a plain retry of the interrupted write, a withdrawal, two more publications + writes and a withdrawal + session reset; the files must be consistent after each; every such execution is a distinct non-trivial case",
     })
 }
